@@ -12,8 +12,10 @@ EXPLANATION = ('Problem.check_partials and check_totals run on real components w
                'produced (truth + delta at the injected entry), J_fd must be the mathematical difference quotient of the component function, '
                'the reported abs error must be |J - J_fd| at the entry with the largest tolerance violation (and that violation must be the '
                'maximum over all entries), and uncovered_nz must list exactly the (row, col) positions outside the declared sparsity '
-               'pattern whose finite-difference value exceeds the threshold - for all columns.')
-BOUNDS = dict(components='3x3 polynomial component: dense, rows/cols, scipy csr/coo/csc declarations; under-declared by 1-2 entries in different columns', methods='fd forward, step 2^-10')
+               'pattern whose finite-difference value exceeds the threshold - for all columns.  With a list of steps every J_fd[k] / error[k] must '
+               'belong to steps[k]; a repeated check must report the same values and the same uncovered list, and constant declared '
+               'partials must still be the declared ones afterwards.')
+BOUNDS = dict(components='3x3 polynomial component: dense, rows/cols, scipy csr/coo/csc declarations; under-declared by 1-2 entries in different columns', methods='fd forward, step 2^-10 (step lists: 2^-10, 2^-13)', histories='<= 2 consecutive checks on one problem')
 STUBS = ['console output suppressed (out_stream=None)', 'symx.sparse stand-ins for scipy-declared partials']
 ASSUMPTIONS = ['reals']
 OUTSIDE = ['text/rich formatting of the report', 'directional checks', 'cs method (C12 covers the scheme)']
@@ -46,6 +48,13 @@ def harnesses(tier, seed):
             jobs.append(dict(fn='h_uncovered', params=dict(style=style, drop=drop), max_paths=20000))
     jobs.append(dict(fn='h_totals', params=dict(wrong=True)))
     jobs.append(dict(fn='h_totals', params=dict(wrong=False)))
+    for style in ('dense',) if q else ('dense', 'sparse', 'sp_csr', 'sp_coo', 'sp_csc'):
+        jobs.append(dict(fn='h_steps', params=dict(style=style, what='partials'), max_paths=20000))
+    jobs.append(dict(fn='h_steps', params=dict(style='dense', what='totals'), max_paths=20000))
+    for decl in ('dense', 'rows_cols') if q else ('dense', 'rows_cols', 'diagonal', 'csr'):
+        jobs.append(dict(fn='h_repeat', params=dict(decl=decl), max_paths=20000))
+    for style in ('sparse',) if q else ('sparse', 'sp_csr', 'sp_coo', 'sp_csc'):
+        jobs.append(dict(fn='h_uncovered_repeat', params=dict(style=style, drop=[[0, 1], [2, 2]]), max_paths=20000))
     return jobs
 
 
@@ -168,3 +177,113 @@ def h_totals(ctx, wrong):
     Jfd = Jfd[0] if isinstance(Jfd, (list, tuple)) else Jfd
     ctx.eq('J_fd_is_the_difference_quotient', np.asarray(Jfd), Q, 1e-9)
     ctx.observe('J', np.asarray(d[key]))
+
+
+def h_steps(ctx, style, what):
+    """a list of steps: every reported J_fd[k] / error[k] belongs to steps[k] (the values computed for an earlier step are not
+    overwritten by a later one)"""
+    P, spec, p, a, delta = _setup(ctx, style, wrong=True, n=2)
+    steps = [STEP, STEP / 8]
+    if what == 'partials':
+        d = p.check_partials(out_stream=None, method='fd', form='forward', step=steps)['c']['y', 'x']
+    else:
+        d = p.check_totals(of=P.ofs, wrt=P.wrts, out_stream=None, method='fd', form='forward', step=steps)[P.ofs[0], P.wrts[0]]
+    ctx.check('one_J_fd_per_step', isinstance(d['J_fd'], (list, tuple)) and len(d['J_fd']) == 2, got=repr(type(d['J_fd'])))
+    ctx.check('reported_steps', [float(x) for x in d['steps']] == steps, got=repr(d['steps']))
+    key = 'J_fwd' if d.get('J_fwd') is not None else 'J_rev'
+    Jf = np.asarray(d[key], dtype=object if ctx.sym else float).reshape(-1)
+    for k, st in enumerate(steps):
+        Q = _quotient(ctx, lambda x: _truth_comp(ctx, P, 'c', {'x': x}), a, 'fd', 'forward', [ctx.const(st)] * 2)
+        ctx.eq(f'J_fd[{k}]_is_the_quotient_for_step[{k}]', np.asarray(d['J_fd'][k]), Q, 1e-9)
+        Jd = np.asarray(d['J_fd'][k], dtype=object if ctx.sym else float).reshape(-1)
+        ae = d['abs error'][k]
+        rep = ae.forward if ae.forward is not None else ae.reverse
+        diffs = [_absv(Jf[i] - Jd[i]) for i in range(Jf.size)]
+        if ctx.sym:
+            ctx.check(f'abs_error[{k}]_is_a_difference_of_step[{k}]', any(bool(rep == x) for x in diffs))
+        else:
+            ctx.check(f'abs_error[{k}]_is_a_difference_of_step[{k}]', any(abs(float(rep) - float(x)) <= 1e-9 * (1 + abs(float(x))) for x in diffs))
+    ctx.observe('J_fd0', np.asarray(d['J_fd'][0]))
+
+
+class _ConstComp(om.ExplicitComponent):
+    """y = A x with a constant declared partial A + D (D: an injected error), in several declaration forms"""
+
+    def __init__(self, A, D, decl, xp):
+        super().__init__()
+        self.A, self.D, self.decl, self.xp = A, D, decl, xp
+
+    def setup(self):
+        n = self.A.shape[0]
+        self.add_input('x', self.xp.ones(n))
+        self.add_output('y', self.xp.ones(n))
+        V = self.A + self.D
+        if self.decl == 'dense':
+            self.declare_partials('y', 'x', val=V)
+        elif self.decl == 'rows_cols':
+            r, c = np.nonzero(np.ones((n, n)))
+            self.declare_partials('y', 'x', rows=r, cols=c, val=V.reshape(-1))
+        elif self.decl == 'diagonal':
+            self.declare_partials('y', 'x', diagonal=True, val=np.array([V[i, i] for i in range(n)], dtype=V.dtype))
+        else:
+            import scipy.sparse as sp
+            from symx import sparse as SX
+            r, c = np.nonzero(np.ones((n, n)))
+            self.declare_partials('y', 'x', val=(SX.csr_matrix if V.dtype == object else sp.csr_matrix)((V.reshape(-1), (r, c)), shape=(n, n)))
+
+    def compute(self, inputs, outputs):
+        x = inputs['x']
+        n = self.A.shape[0]
+        if self.decl == 'diagonal':
+            outputs['y'] = self.xp.array([self.A[i, i] * x[i] for i in range(n)]) if self.xp is not np else np.diag(self.A) * x
+        else:
+            outputs['y'] = self.A.dot(x)
+
+
+def h_repeat(ctx, decl):
+    """constant declared partials: a second check_partials reports the same values as the first (the approximated values of the
+    first check do not replace the declared ones), and every report's J_fwd is the declared constant"""
+    _install(ctx)
+    n = 2
+    A = ctx.consts([[2.0, -1.0], [0.5, 3.0]]) if ctx.sym else np.array([[2.0, -1.0], [0.5, 3.0]])
+    if decl == 'diagonal':
+        A = A * np.eye(n)
+    d0 = ctx.real('d0', -2, 2)
+    ctx.assume((d0 >= 0.125) | (d0 <= -0.125))      # an injected error of visible size (a float replay must be able to see it)
+    D = (ctx.zeros((n, n)) if ctx.sym else np.zeros((n, n)))
+    D[0, 0] = d0
+    p = om.Problem()
+    p.model.add_subsystem('c', _ConstComp(A, D, decl, ctx.np))
+    p.setup()
+    p.final_setup()
+    x = ctx.reals('x', n, -3, 3)
+    p.set_val('c.x', x)
+    p.run_model()
+    want = A + D
+    reps = []
+    for k in range(2):
+        d = p.check_partials(out_stream=None, method='fd', form='forward', step=STEP)['c']['y', 'x']
+        Jfd = d['J_fd'][0] if isinstance(d['J_fd'], (list, tuple)) else d['J_fd']
+        ctx.eq(f'call{k}:J_fwd_is_the_declared_constant', np.asarray(d['J_fwd']), want)
+        ctx.eq(f'call{k}:J_fd_is_the_function_slope', np.asarray(Jfd), A, 1e-9)
+        ae = d['abs error']
+        ae = ae[0] if isinstance(ae, list) else ae
+        # the reported abs error is the difference at the entry with the largest tolerance violation: |d0| or 0 here
+        ctx.check(f'call{k}:abs_error', bool(ae.forward == _absv(d0)) or bool(ae.forward == 0) if ctx.sym else
+                  min(abs(float(ae.forward) - abs(float(d0))), abs(float(ae.forward))) <= 1e-9)
+        reps.append(d)
+    J = p.compute_totals(of=['c.y'], wrt=['c.x'], return_format='array')
+    ctx.eq('declared_partial_still_used_after_the_checks', np.asarray(J), want)
+    ctx.observe('J', np.asarray(J))
+
+
+def h_uncovered_repeat(ctx, style, drop):
+    """the uncovered-nonzero list of a second check (and of a check with two steps) is the same set, without entries left over"""
+    P, spec, p, a, _ = _setup(ctx, style, drop=drop)
+    d1 = p.check_partials(out_stream=None, method='fd', form='forward', step=STEP)['c']['y', 'x']
+    l1 = [(int(r), int(c)) for r, c in d1.get('uncovered_nz', [])]
+    d2 = p.check_partials(out_stream=None, method='fd', form='forward', step=STEP)['c']['y', 'x']
+    l2 = [(int(r), int(c)) for r, c in d2.get('uncovered_nz', [])]
+    ctx.check('no_duplicates_first', len(l1) == len(set(l1)), got=repr(l1))
+    ctx.check('second_check_reports_the_same_list', sorted(l2) == sorted(l1), first=repr(l1), second=repr(l2))
+    ctx.observe('n', len(l1))
